@@ -17,6 +17,7 @@ Line-protocol driver for C15. One request per line (ints only), one response lin
   readrad      ntext cp.. ntbl (len cp.. count)*       role strings + `is_radical` flags after the CXSMILES radical stage of
                                                        `smiles(text)`; table = atom count of every `.`-piece (real parser)
   mapfix       remap ignore nR nP nA (len m..)*        `postprocess_parsed_reaction`: final atom numbers per role / molecule
+  union        k <mol>*                                `reduce(or_, mols)` (`Graph.union(remap=True)`), exact dict order
 -/
 open ChythonModel.Py ChythonModel.Model ChythonModel.Model.C15
 
@@ -121,6 +122,14 @@ def handle (line : String) : String :=
           " FR " ++ showFlags fr ++ " FA " ++ showFlags fa ++ " FP " ++ showFlags fp
       | _ => "bad readrad"
     | none => "bad ints"
+  | "union" :: rest =>
+    match parseInts? rest with
+    | some (k :: xs) =>
+      if k < 0 then "bad counts" else
+      match takeMols k.toNat xs with
+      | some (ms, []) => if ms.all (·.WF) then "ok " ++ (unionAll ms).render else "bad wf"
+      | _ => "bad mols"
+    | _ => "bad ints"
   | "mapfix" :: rest =>
     match parseInts? rest with
     | some (rm :: ig :: nR :: nP :: nA :: xs) =>
